@@ -79,6 +79,24 @@ Section Signer.
 
   Definition sess_check := sess_check_with check_hex.
 
+  (** [Sessions.CheckState]: a live session whose payload is empty;
+      [Sessions.CheckJSON]: a live session whose payload [encoding/json] reads
+      ([json_ok] stands for [json.Unmarshal] succeeding into the caller's value). *)
+  Definition sess_check_state (k : K) (now : Z) (s : list N) : bool :=
+    match sess_check k now s with
+    | Some ([], _) => true
+    | _ => false
+    end.
+
+  Definition sess_check_json (json_ok : bytes -> bool) (k : K) (now : Z) (s : list N) : bool :=
+    match sess_check k now s with
+    | Some (d, _) => json_ok d
+    | None => false
+    end.
+
+  (** [Sessions.NewState]: a session without payload for the configured lifetime. *)
+  Definition sess_new_state (k : K) (maxttl t0 : Z) : list N := fst (sess_new k maxttl t0 0 []).
+
   (** [refreshTTL] / [Sessions.NeedRefresh]: a fifth of the configured
       lifetime (Go's integer division; zero when the lifetime is not positive). *)
   Definition refresh_ttl (maxttl : Z) : Z := if maxttl <=? 0 then 0 else maxttl / 5.
